@@ -2,6 +2,7 @@
 import io
 
 from pv.core import ir, gen, build, absval, lib, harness, x690
+from pv.core import findings as fz
 
 PROP = 'C01'
 LEVEL = 'exploration'
@@ -41,8 +42,8 @@ def run_case(case):
     defMode, chunk = case['mode']
     fails = []
 
-    def F(sub, kind, msg, sig=''):
-        fails.append({'sub': sub, 'kind': kind, 'sig': sig, 'msg': msg})
+    def F(sub, kind, msg, sig='', obs=None):
+        fails.append({'sub': sub, 'kind': kind, 'sig': sig, 'msg': msg, 'obs': obs})
 
     sch = build.schema(T)
     obj = build.value_from(sch, T, v)
@@ -59,7 +60,7 @@ def run_case(case):
             F('decode', 'remainder', 'remainder %s | enc=%s' % (bytes(d.rest).hex()[:60], enc.hex()[:200]))
         ok, why = absval.equal(T, d.value, v, sch)
         if not ok:
-            F('decode', 'value', '%s | enc=%s' % (why, enc.hex()[:200]))
+            F('decode', 'value', '%s | enc=%s' % (why, enc.hex()[:200]), obs=_got(T, d.value, sch))
     items, final = lib.stream_all('BER', io.BytesIO(enc), sch)
     if final != 'stop':
         if d.ok:
@@ -70,8 +71,15 @@ def run_case(case):
     else:
         ok, why = absval.equal(T, items[0], v, sch)
         if not ok and d.ok and absval.equal(T, d.value, v, sch)[0]:
-            F('stream', 'value', why)
+            F('stream', 'value', why, obs=_got(T, items[0], sch))
     return fails
+
+
+def _got(T, obj, sch):
+    try:
+        return {'got': absval.absval(T, obj, sch)}
+    except Exception as e:
+        return {'shape': str(e)[:200]}
 
 
 def annotate(case, fails):
@@ -104,7 +112,7 @@ def run_shard(desc, seed, tier, col):
         col.case({'T': T, 'v': v, 'm': list(mode)}, nontriv, features(T, v, mode),
                  sample={'type': ir.show_type(T), 'value': absval.short(v, 200), 'defMode': mode[0], 'maxChunkSize': mode[1]})
         for f in run_case(case):
-            col.fail(f['sub'], f['kind'], f['msg'], case, sig=f['sig'])
+            col.fail(f['sub'], f['kind'], f['msg'], case, sig=f['sig'], obs=f.get('obs'))
 
     harness.run_given(strat, body, seed, desc['examples'], col)
 
@@ -114,15 +122,26 @@ CFG = {}
 
 # ---------------------------------------------------------------- known findings (defect models)
 
+def _only_known(case, exclude):
+    """Every failure of `case` is explained by a finding not in `exclude`."""
+    for f in run_case(case):
+        f = dict(f, case=ir.to_jsonable(case), obs=ir.to_jsonable(f.get('obs')))
+        if not any(pred(f) for fid, pred in FINDINGS.items() if fid not in exclude):
+            return False
+    return True
+
+
+MODE_FINDINGS = ('F01-stray-eoo', 'F02-tagged-any-indef')
+
+
 def _passes_definite(case):
     c = dict(case)
     c['mode'] = [True, case['mode'][1]]
-    return not run_case(c)
+    return _only_known(c, MODE_FINDINGS)
 
 
 def _f_eoo(failure):
     """Stray 00 00 after an EXPLICIT tag over a primitive whose encoder has no indefinite mode."""
-    from pv.core import findings as fz
     case = fz.case_of(failure)
     if case['mode'][0] or failure['sub'] not in ('decode', 'stream'):
         return False
@@ -133,7 +152,6 @@ def _f_eoo(failure):
 
 def _f_any_indef(failure):
     """Tagged ANY in indefinite-length form: decoder returns bare bytes / loses content."""
-    from pv.core import findings as fz
     case = fz.case_of(failure)
     if case['mode'][0] or failure['sub'] not in ('decode', 'stream'):
         return False
@@ -142,4 +160,43 @@ def _f_any_indef(failure):
     return _passes_definite(case)
 
 
-FINDINGS = {'F01-stray-eoo': _f_eoo, 'F02-tagged-any-indef': _f_any_indef}
+def _f_opt_empty_record(failure):
+    """Absent OPTIONAL component of an all-optional record type is written as present-and-empty."""
+    if failure['kind'] != 'value' or not failure.get('obs'):
+        return False
+    case = fz.case_of(failure)
+    if not fz.absent_optional_empty_record(case['T'], case['v']):
+        return False
+    obs = ir.from_jsonable(failure['obs'])
+    if 'got' not in obs:
+        return False
+    T = case['T']
+    return ir.same(T, fz.strip_empty_optional_records(T, obs['got']), fz.strip_empty_optional_records(T, case['v']))
+
+
+def _f_real10(failure):
+    """Decimal REAL is decoded through float(): the value comes back rounded."""
+    if failure['kind'] != 'value' or not failure.get('obs'):
+        return False
+    case = fz.case_of(failure)
+    if not fz.real10_present(case['T'], case['v']):
+        return False
+    obs = ir.from_jsonable(failure['obs'])
+    if 'got' not in obs:
+        return False
+    T = case['T']
+
+    def flt(t, x):
+        if t['k'] == 'REAL' and isinstance(x, tuple) and x[1] == 10:
+            return ('float', '%.10e' % float('%de%d' % (x[0], x[2])))
+        return x
+    try:
+        a = fz.map_values(T, obs['got'], flt)
+        b = fz.map_values(T, case['v'], flt)
+    except (OverflowError, ValueError):
+        return False
+    return ir.jdump(ir.canon(T, a)) == ir.jdump(ir.canon(T, b))
+
+
+FINDINGS = {'F01-stray-eoo': _f_eoo, 'F02-tagged-any-indef': _f_any_indef,
+            'F03-optional-empty-record': _f_opt_empty_record, 'F04-real10-float': _f_real10}
